@@ -13,7 +13,9 @@ EXTENDS Policies, TopologyEnum, Json
 CONSTANTS MaxLen, MaxNodes, MaxVnodes, NDcs, NRacks,
           KsIdx,       \* which entries of KsTable are used
           TailLen,     \* 0, 1 or 2: notification ops appended to the base history
-          Variants     \* TRUE: also the base-history variants (add order, SetPartitioner position, no KeyspaceChanged)
+          Variants,    \* TRUE: also the base-history variants (add order, SetPartitioner position, no KeyspaceChanged)
+          ExtraKs      \* the keyspaces (subset of KsIdx) for which the variants, the rebuild-while-down histories and
+                       \* the overlapped-update histories are generated as well
 
 KsTable == <<
   [strat |-> "simple", rfdc |-> <<"*">>, rfn |-> <<1>>],
@@ -47,9 +49,32 @@ Tails(n) ==
      {<<Op(p[1], h), Op(p[2], h)>> : p \in {<<"down", "up">>, <<"remove", "add">>, <<"sdown", "up">>, <<"sdown", "down">>,
                                            <<"down", "add">>, <<"remove", "up">>}, h \in 1 .. n}
    ELSE {})
-Hists(n) ==
+\* the ring is rebuilt (a host leaves / joins) while another host is down: placement must not depend on
+\* liveness; the down host may come back afterwards (no rebuild then)
+RebuildTails(n) ==
+  IF n < 2 THEN {}
+  ELSE UNION {{<<Op("down", p[1]), Op("remove", p[2])>>, <<Op("sdown", p[1]), Op("remove", p[2])>>,
+               <<Op("down", p[1]), Op("remove", p[2]), Op("up", p[1])>>,
+               <<Op("down", p[1]), Op("remove", p[2]), Op("add", p[2])>>} : p \in {<<1, n>>, <<n, 1>>}}
+\* overlapped updates: "par" says that the two following calls overlap - the first one is parked
+\* inside the keyspace-metadata callback while the second one is made.  The cluster view afterwards
+\* must be the one of their sequential application (the pairs commute on it).
+Par(a, b) == <<Op("par", 0), a, b>>
+OverlapHists(n) ==
+  IF n < 2 THEN {}
+  ELSE LET b1 == <<Op("setpart", 0)>> \o Adds(n - 1, TRUE) \o <<Op("ks", 0)>>     \* host n not yet added
+       IN {b1 \o Par(Op("add", n), Op("ks", 0)), b1 \o Par(Op("ks", 0), Op("add", n)),
+           b1 \o Par(Op("add", n), Op("remove", 1)), b1 \o Par(Op("remove", 1), Op("add", n)),
+           b1 \o Par(Op("add", n), Op("down", 1)), b1 \o Par(Op("ks", 0), Op("remove", 1)),
+           Adds(n - 1, TRUE) \o <<Op("ks", 0)>> \o Par(Op("setpart", 0), Op("add", n))} \cup
+          (IF n < 3 THEN {}
+           ELSE {<<Op("setpart", 0)>> \o Adds(n - 2, TRUE) \o <<Op("ks", 0)>> \o Par(Op("add", n - 1), Op("add", n)),
+                 <<Op("setpart", 0)>> \o Adds(n - 2, TRUE) \o <<Op("ks", 0)>> \o Par(Op("add", n), Op("add", n - 1)) \o <<Op("up", 1)>>})
+Hists(n, extra, ta) ==
   {BaseHist(n, TRUE, TRUE, TRUE) \o t : t \in Tails(n)} \cup
-  (IF Variants THEN {BaseHist(n, a, p, k) : a \in BOOLEAN, p \in BOOLEAN, k \in BOOLEAN} ELSE {})
+  (IF Variants /\ extra THEN {BaseHist(n, a, p, k) : a \in BOOLEAN, p \in BOOLEAN, k \in BOOLEAN} ELSE {}) \cup
+  (IF extra THEN {BaseHist(n, TRUE, TRUE, TRUE) \o t : t \in RebuildTails(n)} ELSE {}) \cup
+  (IF extra /\ ta THEN OverlapHists(n) ELSE {})
 
 VARIABLES lay, cfg, ksi, hist, stage
 vars == <<lay, cfg, ksi, hist, stage>>
@@ -64,7 +89,7 @@ PickLayout == /\ stage = 0
 PickCfg == /\ stage = 1 /\ cfg' \in PolCfgs
            /\ ksi' \in (IF cfg'.ta THEN KsIdx ELSE {CHOOSE k \in KsIdx : \A m \in KsIdx : k <= m})
            /\ stage' = 2 /\ UNCHANGED <<lay, hist>>
-PickHist == stage = 2 /\ hist' \in Hists(Len(lay[2])) /\ stage' = 3 /\ UNCHANGED <<lay, cfg, ksi>>
+PickHist == stage = 2 /\ hist' \in Hists(Len(lay[2]), ksi \in ExtraKs \/ ~cfg.ta, cfg.ta) /\ stage' = 3 /\ UNCHANGED <<lay, cfg, ksi>>
 Next == PickLayout \/ PickCfg \/ PickHist
 Spec == Init /\ [][Next]_vars
 IsCase == stage = 3
@@ -91,6 +116,8 @@ GroupsOf(w, s, qs) ==
          k == NPicks(q)
          exp == [i \in 1 .. k |-> Offer(w, s, cx, Before(qs, g) + i)]
      IN [q |-> q, k |-> k, exp |-> exp,
+         \* Cassandra's placement for q on the current ring: what the policy's replica map must hold
+         place |-> IF cx.ta THEN Placement(w, s, q) ELSE <<>>,
          bad |-> UNION {PickFailing(w, s, cx, exp[i], FALSE) : i \in 1 .. k} \cup RotationFailing(w, s, cx, exp)]]
 
 \* one invariant: model pass (no predicate fails on the predicted sequences) and the case printed
